@@ -54,6 +54,10 @@ class Plain:
     """A class that is neither a SubclassJSONSerializer nor registered."""
 
 
+SOME_TEXT = "text"
+SOME_TUPLE = (1, 2)
+
+
 def some_function():
     return 1
 
